@@ -12,6 +12,8 @@ def _hs():
     for nm, tier, txt, _, _ in gen_c13.expressions("thorough"):
         hs.append(H("gen_c13::" + nm, tier=tier, desc="writer expression %s: sinks written = denotation, each once with the whole buffer, "
                     "make_writer_for gets the event's metadata; same for make_writer()" % txt, sym=SYM_ALG))
+    hs.append(H("c13::c13_short_writes_tee", desc="write_all on a tee of two sinks that each accept only part of a buffer per call (as io::Write allows): both sinks end up with the whole record, in order", sym="per-call acceptance cap of each sink (1..=3), record bytes (1..=3), level"))
+    hs.append(H("c13::c13_short_writes_gate_or_else", desc="the same through with_max_level(..).or_else(..): the selected sink receives the whole record although it accepts only part of the buffer per call", sym="caps, threshold, level, record bytes"))
     hs.append(H("c13::c13_alg_reach", kind="reach", desc="vacuity twin (algebra)"))
     P = "c13::c13_proto_"
     for pre, tier, root in (("", "quick", "light LookupSpan stand-in collector"), ("reg_", "thorough", "real Registry on the slab/thread_local shims")):
@@ -44,7 +46,7 @@ SPEC = {
     "bounds": "writer expressions: every tree to depth 2 and seven of depth 3 with <= 2 leaves (quick) / every tree to depth 3 with <= 3 leaves (thorough, 90 shapes; six of them exceed the 10 GB cap as one query and are decided as two, make_writer_for half and make_writer half) in which each level/predicate node is a solver-chosen one of with_max_level / with_min_level / with_filter (one harness per tree shape, each standing for all 3^k instantiations), plus, as a cross-check with the real method-chain types, every concrete-typed expression to depth 1, 6 documented ones and 4 with a type-erased BoxMakeWriter node (denoting its operand), over 3 recording sinks; records of 1..=3 bytes; "
               "write protocol: 1 or 2 consecutive events, records of 0..=3 ASCII bytes, 2 simulated threads, no spans",
     "outside": "what the four formatters (full, compact, pretty, json) put in the line (core::fmt over heap strings); span-lifecycle records (FmtSpan NEW/ENTER/EXIT/CLOSE); concurrent schedules (record atomicity follows from one write per record, the schedules themselves are not explored); "
-               "the history after a caught panic inside format_event (Kani aborts on panic; by reading: buf.clear() is skipped, observation O1); sinks that return errors or short writes; expressions deeper than 3; Mutex, Arc and closure MakeWriters (BoxMakeWriter is covered as a pass-through node in four expressions); the text of the internal-error message",
+               "the history after a caught panic inside format_event (Kani aborts on panic; by reading: buf.clear() is skipped, observation O1); sinks that return errors (short writes are covered for Tee and a gated or_else); expressions deeper than 3; Mutex, Arc and closure MakeWriters (BoxMakeWriter is covered as a pass-through node in four expressions); the text of the internal-error message",
     "stubs": ["std::rt::thread_cleanup -> no-op", "core::fmt::write -> Ok(()) in the protocol harnesses (the stub formatter writes through write_str; only panic text goes through fmt)",
               "std::fmt::format -> \"E\" in c13_proto*_fail_logged only (text of the error message is not the subject)",
               "H2: thread_local! in fmt_subscriber.rs -> one slot per simulated thread", "quick protocol harnesses: a Collect + LookupSpan stand-in with no spans; thorough: real Registry on the sharded-slab / thread_local shims (never dropped)",
